@@ -34,6 +34,7 @@ func runC15(c *an.Ctx) {
 	ruleS5(c)
 	ruleS3(c)
 	ruleS4(c)
+	ruleS6(c)
 }
 
 func relationFuncs(c *an.Ctx) []*ssa.Function {
@@ -270,8 +271,9 @@ func withHelpers(rel *an.Relation, all map[*ssa.Function]*an.Relation) []*an.Rel
 				return
 			}
 			// helper(recv-side, arg-side): the operands themselves, not components
-			if r.ClassOf(call.Call.Args[0]) == an.ClassR && r.ClassOf(call.Call.Args[1]) == an.ClassO &&
-				an.LastSeg(call.Call.Args[0]) == "·" && an.LastSeg(call.Call.Args[1]) == "·" {
+			// helper(recv-side value, arg-side value): the operands themselves or corresponding
+			// components (one element of each side's collection)
+			if r.ClassOf(call.Call.Args[0]) == an.ClassR && r.ClassOf(call.Call.Args[1]) == an.ClassO {
 				seen[callee] = true
 				out = append(out, h)
 				add(h, d+1)
@@ -741,4 +743,85 @@ func ruleS5(c *an.Ctx) {
 				"each element of "+sp.typ+"."+sp.field+" must be compared with the full element relation before the relation can report equality; "+c.WitnessString(w))
 		}
 	}
+}
+
+// S6: file type names may change between equivalent invocations, declared types may not.  The
+// parameter comparison may therefore skip the type-name comparison only for parameters whose file kind
+// is exactly KindIsFile.  For every function that compares GetTname() of the two sides: from the first
+// per-parameter accessor call, every path to "this parameter matches" (the next iteration, or a return
+// that is not the constant false) evaluates the type-name comparison or crosses an edge on which
+// IsFile() == KindIsFile holds (the edge may come from a predicate helper).
+func ruleS6(c *an.Ctx) {
+	p := c.P
+	kindIsFile := p.Const(pkgSyntax, "KindIsFile")
+	if kindIsFile == nil {
+		c.Undecided("S6", "anchor(KindIsFile)", token.NoPos, "constant not found")
+		return
+	}
+	calleeName := func(call *ssa.Call) string {
+		if call.Call.IsInvoke() {
+			return call.Call.Method.Name()
+		}
+		if f := call.Call.StaticCallee(); f != nil && f.Signature.Recv() != nil {
+			return f.Name()
+		}
+		return ""
+	}
+	invokeNamed := func(v ssa.Value, name string) bool {
+		call, ok := an.Strip(v).(*ssa.Call)
+		return ok && calleeName(call) == name
+	}
+	n := 0
+	for _, fn := range p.FuncsOf(pkgSyntax) {
+		var cmp *ssa.BinOp
+		an.Instrs(fn, func(in ssa.Instruction) {
+			b, ok := in.(*ssa.BinOp)
+			if ok && (b.Op == token.EQL || b.Op == token.NEQ) && invokeNamed(b.X, "GetTname") && invokeNamed(b.Y, "GetTname") {
+				cmp = b
+			}
+		})
+		if cmp == nil {
+			continue
+		}
+		// the iteration starts at the first accessor call on a parameter
+		var start ssa.Instruction
+		for _, b := range fn.Blocks {
+			for _, in := range b.Instrs {
+				if call, ok := in.(*ssa.Call); ok && start == nil {
+					switch calleeName(call) {
+					case "GetArrayDim", "IsFile", "GetTname":
+						start = in
+					}
+				}
+			}
+		}
+		if start == nil {
+			continue
+		}
+		n++
+		w := an.Query{Fn: fn, After: start,
+			Target: func(in ssa.Instruction) bool {
+				if in == start {
+					return true
+				}
+				r, ok := in.(*ssa.Return)
+				if !ok || len(r.Results) == 0 {
+					return false
+				}
+				cv, isC := an.RetVal(r, 0).(*ssa.Const)
+				return !(isC && cv.Value != nil && cv.Value.String() == "false")
+			},
+			Barrier: func(in ssa.Instruction) bool { return in == ssa.Instruction(cmp) },
+			BarrierEdge: func(from, to *ssa.BasicBlock) bool {
+				return an.EdgeHolds(from, to, func(r an.Rel) bool {
+					if r.Op != token.EQL {
+						return false
+					}
+					return (invokeNamed(r.X, "IsFile") && an.IsConst(r.Y, kindIsFile)) || (invokeNamed(r.Y, "IsFile") && an.IsConst(r.X, kindIsFile))
+				})
+			}}.Find()
+		c.Check("S6", "type-name-compared-unless-plain-file@"+an.FnName(fn), cmp.Pos(), w == nil,
+			"a parameter may be accepted without comparing GetTname() only where IsFile() == KindIsFile was established (file type names are cosmetic; struct, map and array-of-file types are not); "+c.WitnessString(w))
+	}
+	c.Floor("S6", "functions comparing the declared type names of parameters", n, 1)
 }
